@@ -41,6 +41,14 @@ func (h *H) Name() string     { return "hpool" }
 func (h *H) Props() []string  { return []string{"C04", "C05"} }
 func (h *H) NewCfg() core.Cfg { return &Cfg{} }
 
+// Weight: C05 is shared with the outputs harness, which takes one slot in five.
+func (h *H) Weight(prop string) int {
+	if prop == "C05" {
+		return 2
+	}
+	return 1
+}
+
 func (h *H) Gen(rng *rand.Rand, tier, prop string) core.Cfg {
 	c := &Cfg{}
 	c.Sim = simrt.Config{PSwitch: core.Pick(rng, 0.05, 0.2, 0.5), StepCost: time.Microsecond, MaxSteps: 400_000, Horizon: 10 * time.Minute,
